@@ -197,7 +197,7 @@ def pk_unique(variant, marker, mask, force_pk_id, opt=False):
     return ""
 
 
-ob("C05", "K2.pk_unique", {"variant": R(0, 1), "marker": R(-1, 3), "mask": R(1, 15), "force_pk_id": BOOL, "opt": BOOL}, T=900, tpath=60, funcs=FUNCS,
+ob("C05", "K2.pk_unique", {"variant": R(0, 1), "marker": R(-1, 3), "mask": R(1, 15), "force_pk_id": BOOL, "opt": BOOL}, enum=True, T=900, tpath=60, funcs=FUNCS,
    bound="ANY non-empty subset of columns %r, the [PK] marker on ANY one of them or on none, force_pk_id on/off, all columns Optional or not, class and Table variants (solver-enumerated); types survive, also on the primary key" % (NAMES,))(pk_unique)
 
 
@@ -248,6 +248,6 @@ def hybrid_columns_agree(marker, mask, force_pk_id, opt):
     return ""
 
 
-ob("C05", "P3.hybrid_columns_agree", {"marker": R(-1, 3), "mask": R(1, 15), "force_pk_id": BOOL, "opt": BOOL}, T=900, tpath=60,
+ob("C05", "P3.hybrid_columns_agree", {"marker": R(-1, 3), "mask": R(1, 15), "force_pk_id": BOOL, "opt": BOOL}, enum=True, T=900, tpath=60,
    funcs=["cdd.sqlalchemy.emit.sqlalchemy_hybrid", "cdd.sqlalchemy.emit.sqlalchemy_table", "cdd.sqlalchemy.utils.emit_utils.ensure_has_primary_key"],
    bound="same column subsets / marker placements / force_pk_id as K2: the Column(...) calls inside the hybrid class's __table__ are textually the same as the Table variant's, exactly one primary key")(hybrid_columns_agree)
